@@ -58,6 +58,8 @@ def histories(tier):
     # a second session begun on the same instance (the first one is ended by it)
     out += [["none", "rebegin", "none"], ["none", "none", "rebegin", "none"], ["set_k", "none", "rebegin", "none", "none"],
             ["set_k", "rebegin", "set_c", "none"]]
+    # a session begun WITH settings: they must survive a crash that comes before the first step, too
+    out += [["rebegin_set", "none"], ["rebegin_set", "none", "none"], ["none", "rebegin_set", "set_k", "none"]]
     return out
 
 
@@ -75,6 +77,13 @@ def body(r):
 def step_request(c, inst, i, kind, mode, env):
     if kind == "none":
         return c.post("/%s/run-step" % inst)
+    if kind == "rebegin_set":
+        name = "v%d" % i
+        v = scen.sym_const(name) if mode == "sym" else float((env or {}).get(name, 2.0 + 0.75 * i))
+        r = c.post("/%s/begin-session" % inst, data=json.dumps({"scenario_managers": ["sm"], "scenarios": ["A"], "equations": scen.EQS,
+                                                                 "settings": {"sm": {"A": {"constants": {"c": v}}}}}),
+                   content_type="application/json")
+        return _Resp(r.status_code, "session begun with settings")
     if kind == "rebegin":
         r = c.post("/%s/begin-session" % inst, data=json.dumps({"scenario_managers": ["sm"], "scenarios": ["A"], "equations": scen.EQS}),
                    content_type="application/json")
